@@ -171,8 +171,64 @@ class Compiler:
                     stack.extend(v for v in value if isinstance(v, Node))
         return sorted(names)
 
+    def _scope_catch_parameters(self, root: Node) -> None:
+        """Give every catch parameter a name of its own (alpha renaming).
+
+        A catch parameter is visible in its catch block only and shadows
+        variables of the same name there.  The parameter and the references
+        to it are renamed to `name#n`, which no source identifier can spell,
+        so that the flat per-function variable tables keep it apart from a
+        same-named variable, parameter or other catch parameter.  Iterative
+        (deeply nested source must not exhaust the host stack).
+        """
+        counter = 0
+        stack: List[Tuple[Node, Dict[str, str]]] = [(root, {})]
+        while stack:
+            node, renames = stack.pop()
+            if isinstance(node, Identifier):
+                if node.name in renames:
+                    node.name = renames[node.name]
+                continue
+            children: List[Node] = []
+            if isinstance(node, CatchClause):
+                counter += 1
+                old = node.param.name
+                renames = dict(renames)
+                renames[old] = node.param.name = f"{old}#{counter}"
+                children = [node.body]
+            elif isinstance(
+                node, (FunctionDeclaration, FunctionExpression, ArrowFunctionExpression)
+            ):
+                # what the function declares itself hides the catch parameter
+                if renames:
+                    own = {p.name for p in node.params}
+                    if getattr(node, "id", None) is not None:
+                        own.add(node.id.name)
+                    self._collect_var_decls(node.body, own)
+                    renames = {k: v for k, v in renames.items() if k not in own}
+                children = [node.body]
+            elif isinstance(node, MemberExpression):
+                children = [node.object] + ([node.property] if node.computed else [])
+            elif isinstance(node, Property):
+                if node.value is node.key:  # shorthand {e}: the key stays
+                    node.value = Identifier(node.key.name)
+                children = ([node.key] if node.computed else []) + [node.value]
+            elif isinstance(node, (BreakStatement, ContinueStatement)):
+                continue
+            elif isinstance(node, LabeledStatement):
+                children = [node.body]
+            else:
+                for value in node.__dict__.values():
+                    if isinstance(value, Node):
+                        children.append(value)
+                    elif isinstance(value, list):
+                        children.extend(v for v in value if isinstance(v, Node))
+            for child in children:
+                stack.append((child, renames))
+
     def compile(self, node: Program) -> CompiledFunction:
         """Compile a program to bytecode."""
+        self._scope_catch_parameters(node)
         body = node.body
         # var declarations are hoisted: the names exist from the start
         declared = self._program_var_names(body)
